@@ -322,6 +322,12 @@ def ax_utf8_roundtrip(s: str) -> bool:
     return utf8_valid(utf8(s)) and utf8_decode(utf8(s)) == s
 
 
+@axiom("utf8")
+def ax_utf8_ascii_char(s: str) -> bool:
+    """a single ASCII character encodes to the byte of its code point"""
+    return not (len(s) == 1 and ord(s) < 128) or utf8(s) == bytes([ord(s)])
+
+
 @axiom("utf8_decode")
 def ax_utf8_decode_inverse(b: bytes) -> bool:
     return implies(utf8_valid(b), utf8(utf8_decode(b)) == b)
